@@ -408,6 +408,13 @@ def run(ctx):
                     cases.append([g, m, S, silence, 0])
     # scale: large single components (part sizes from size-dependent
     # arithmetic), default schedule, several worker counts
+    # more than 100 nodes per slave, size not a multiple of 10
+    for g, Ss in ((("big105", (2,)),) if not thorough else
+                  (("big105", (2,)), ("big213", (2, 3)))):
+        graphs.append(g)
+        for m in ("newman", "nsi_newman", "arenas"):
+            for S in Ss:
+                cases.append([g, m, S, 2, 0])
     for g in (["big52", "big64"] if not thorough else
               ["big52", "big55", "big58", "big64", "big89", "big96",
                "big131"]):
